@@ -49,6 +49,7 @@ type SSpec struct {
 	UseStart bool              `json:"use_start,omitempty"` // replicate from the collection's start position
 	BadPos   string            `json:"bad_pos,omitempty"`
 	Kafka    bool              `json:"kafka,omitempty"` // Kafka downstream (producer stubbed); Target is ignored
+	MapSrcDB string            `json:"map_src_db,omitempty"` // source database of the name mapping when it is not the specification's own (an invalid request)
 }
 
 // tgt is the index of the simulated downstream Milvus, -1 for a Kafka downstream.
@@ -313,6 +314,12 @@ func genSOps(rng *Rng, sc *SScript, prop string) {
 					sp.MapDB = sdb + "2"
 					if rng.Pct(50) {
 						sp.MapColl = map[string]string{sp.Coll: sp.Coll + "x"}
+					}
+				} else if rng.Pct(12) {
+					// a name mapping for a database the specification does not cover: must be rejected without a trace
+					sp.MapSrcDB, sp.MapDB = "elsewhere", "t2"
+					if rng.Pct(50) {
+						sp.MapColl = map[string]string{"q1": "q2"}
 					}
 				}
 				t := newTask()
